@@ -49,7 +49,7 @@ class Eqv(Harness):
 
     def shapes(self, tier, prop=None):
         S = [dict(pair="fixed", lin=1, nl=1), dict(pair="fixed", lin=1, nl=0), dict(pair="fixed2", lin=1, nl=1),
-             dict(pair="bounds-form", n=2), dict(pair="dict", typ="ineq"), dict(pair="dict", typ="eq"),
+             dict(pair="bounds-form", n=2), dict(pair="dict", typ="ineq"), dict(pair="dict", typ="eq"), dict(pair="dict2"),
              dict(pair="two-sided-nl"), dict(pair="two-sided-lin"),
              dict(pair="regroup-lin"), dict(pair="regroup-nl"),
              dict(pair="scale", n=1, lin=1, nl=1), dict(pair="scale", n=2, lin=1, nl=1),
@@ -137,6 +137,27 @@ class Eqv(Harness):
                 consA = [M.NonlinearConstraint(spy(logA, "c0", lambda xs: Cn(0, xs)), ctx.arr([lim[0]]), ctx.arr([lim[1]]))]
                 extra = fin("arg")
                 consB = [{"type": shape["typ"], "fun": spy(logB, "c0", lambda xs: Cn(0, xs)), "args": ()}]
+                pbA = self._build(ctx, n, x0, None, consA, spy(logA, "f", F), False, logA)
+                pbB = self._build(ctx, n, x0, None, consB, spy(logB, "f", F), False, logB)
+                mapB = lambda xb: xb
+            elif pair == "dict2":
+                # two dict constraints with different extra arguments vs the equivalent NonlinearConstraint objects
+                n = 1
+                x0 = [fin("x0")]
+                a0, a1 = fin("arg0"), fin("arg1")
+                mkA = lambda j, a: spy(logA, f"c{j}", lambda xs, j=j, a=a: Cn(j, xs + [a]))
+                consA = [M.NonlinearConstraint(mkA(0, a0), ctx.arr([0.0]), ctx.arr([INF])),
+                         M.NonlinearConstraint(mkA(1, a1), ctx.arr([0.0]), ctx.arr([0.0]))]
+
+                def userfun(j):
+                    def g(x, a):
+                        xs = lst(x)
+                        v = Cn(j, xs + [a])
+                        logB.append((f"c{j}", xs, v))
+                        return v
+                    return g
+                consB = [{"type": "ineq", "fun": userfun(0), "args": (a0,)},
+                         {"type": "eq", "fun": userfun(1), "args": (a1,)}]
                 pbA = self._build(ctx, n, x0, None, consA, spy(logA, "f", F), False, logA)
                 pbB = self._build(ctx, n, x0, None, consB, spy(logB, "f", F), False, logB)
                 mapB = lambda xb: xb
